@@ -566,17 +566,21 @@ func c04r4(c *Ctx) {
 			o.Unknown("the function containing the dynamic Delete does not return (done bool, err error)")
 			continue
 		}
+		// inlined view: the read and the release patch may sit in extracted helpers of the teardown
+		// function; their error is then known nil when the helper's error is (errNilX)
 		var get, patch *ssa.Call
-		for _, cc := range callsIn(fn) {
+		var getChain, patchChain []Call
+		for _, xc := range p.callsInX(fn) {
+			cc := xc.Call
 			cv, ok := cc.Instr.(*ssa.Call)
 			if !ok {
 				continue
 			}
 			if isReaderGet(cc.Common) && p.sameValue(callArgs(cc.Common)[2], x) {
-				get = cv
+				get, getChain = cv, xc.Chain
 			}
 			if w, isW := classifyWriter(cc); isW && w.Verb == "Patch" && p.sameValue(w.Obj, x) {
-				patch = cv
+				patch, patchChain = cv, xc.Chain
 			}
 		}
 		justs := []c04Justification{
@@ -595,11 +599,11 @@ func c04r4(c *Ctx) {
 			{"inspected read returned NotFound", func(rc ReturnCase) bool { return p.c04IsNotFoundOf(rc.Facts, get) }},
 			{"delete returned NotFound", func(rc ReturnCase) bool { return p.c04IsNotFoundOf(rc.Facts, del) }},
 			{"owner is neither controller nor owner", func(rc ReturnCase) bool {
-				return get != nil && p.errOfCall(rc.Facts, get) == yesTri && p.factOwnerTest(rc.Facts, "IsController", false, x) && p.factOwnerTest(rc.Facts, "IsOwner", false, x)
+				return get != nil && p.errNilX(rc.Facts, get, getChain) && p.factOwnerTest(rc.Facts, "IsController", false, x) && p.factOwnerTest(rc.Facts, "IsOwner", false, x)
 			}},
 			{"not controller; ownership released by an error-free patch", func(rc ReturnCase) bool {
-				return get != nil && patch != nil && p.errOfCall(rc.Facts, get) == yesTri && p.factOwnerTest(rc.Facts, "IsController", false, x) &&
-					p.factOwnerTest(rc.Facts, "IsOwner", true, x) && p.errOfCall(rc.Facts, patch) == yesTri
+				return get != nil && patch != nil && p.errNilX(rc.Facts, get, getChain) && p.factOwnerTest(rc.Facts, "IsController", false, x) &&
+					p.factOwnerTest(rc.Facts, "IsOwner", true, x) && p.errNilX(rc.Facts, patch, patchChain)
 			}},
 		}
 		p.c04CheckDoneReturns(o, fn, justs, del)
@@ -725,6 +729,42 @@ func (p *Program) c04DoneFact(fs []Fact, pol bool) (string, bool) {
 	return "", false
 }
 
+// c04DoneOrAbsent: the facts of one path establish done==true of this pass's Teardown, or that the
+// cached finalizer is already absent (so Teardown was rightly skipped). Used as a disjunctive guard:
+// different paths into the guarded block may establish different alternatives (`done := true; if
+// Contains {done, err = Teardown()}; if !done {return}` and `if Contains {done, err := Teardown(); if
+// !done {return}}` are the same program).
+func (p *Program) c04DoneOrAbsent(fs []Fact) (string, bool) {
+	if d, ok := p.c04DoneFact(fs, true); ok {
+		return d, true
+	}
+	if _, absent := p.findFactCall(fs, false, []string{pkgCtrlUtil + ".ContainsFinalizer"}, func(cc *ssa.CallCommon) bool {
+		return len(cc.Args) == 2 && isStringConst(cc.Args[1], pfCachedFinalizer)
+	}); absent {
+		return "cached finalizer absent", true
+	}
+	return "", false
+}
+
+// c04UnderDone: every path into b establishes c04DoneOrAbsent, and at least one establishes done==true.
+func (p *Program) c04UnderDone(b *ssa.BasicBlock) (string, bool) {
+	if d, ok := p.c04DoneFact(p.FactsAt(b), true); ok {
+		return d, true
+	}
+	sawDone := false
+	ok := p.holdsOnAllPaths(b, func(fs []Fact) bool {
+		d, ok := p.c04DoneOrAbsent(fs)
+		if ok && d != "cached finalizer absent" {
+			sawDone = true
+		}
+		return ok
+	}, 8)
+	if ok && sawDone {
+		return "on every path: Teardown(...)#0 == true, or the cached finalizer is absent", true
+	}
+	return "", false
+}
+
 func c04r6(c *Ctx) {
 	p := c.P
 	removers := []string{pkgControllers + ".FreeCacheAndRemoveFinalizer", pkgControllers + ".RemoveFinalizer", pkgCtrlUtil + ".RemoveFinalizer"}
@@ -734,7 +774,9 @@ func c04r6(c *Ctx) {
 			switch {
 			case isCallTo(cc.Common, removers...):
 				o := c.Ob(fn, "finalizer-removal:"+calleeName(cc.Common), cc.Instr, "the finalizer of the reconciled object is removed only when this pass's teardown reported done")
-				if ok, why := p.guardedInterproc(cc.Instr, func(fs []Fact) bool { _, ok := p.c04DoneFact(fs, true); return ok }, 2); ok {
+				if d, ok := p.c04UnderDone(cc.Instr.Block()); ok {
+					o.OK("done==true of this pass's Teardown (or absent finalizer): " + d)
+				} else if ok, why := p.guardedInterproc(cc.Instr, func(fs []Fact) bool { _, ok := p.c04DoneFact(fs, true); return ok }, 2); ok {
 					o.OK("done==true of this pass's Teardown (or absent finalizer): " + why)
 				} else {
 					o.Fail("finalizer removal is reachable without done==true of this pass's Teardown (%s); facts: %s", why, strings.Join(factStrings(p, p.FactsAt(cc.Instr.Block())), " ∧ "))
@@ -763,7 +805,7 @@ func c04r6(c *Ctx) {
 			switch cs.Status {
 			case "True":
 				o := c.Ob(fn, "Archived=True", cs.Call.Instr, "Archived=True is written only when this pass's teardown reported done")
-				if d, ok := p.c04DoneFact(fs, true); ok {
+				if d, ok := p.c04UnderDone(cs.Call.Instr.Block()); ok {
 					o.OK("guarded by " + d)
 				} else {
 					o.Fail("Archived=True is reachable without done==true of this pass's Teardown")
